@@ -434,6 +434,15 @@ func (x *Exec) step(st *State, in ssa.Instruction, fr *frame) {
 			bs = append(bs, x.val(st, b))
 		}
 		st.regs[i] = VClosure{Fn: i.Fn.(*ssa.Function), Binds: bs}
+	case *ssa.MakeMap:
+		st.regs[i] = &VMap{}
+	case *ssa.MapUpdate:
+		m, ok := x.val(st, i.Map).(*VMap)
+		if !ok {
+			vfail("map update on a map that was not created in this function (maps are outside the subset)")
+		}
+		m.Keys = append(m.Keys, x.val(st, i.Key))
+		m.Vals = append(m.Vals, x.val(st, i.Value))
 	case *ssa.MakeInterface:
 		st.regs[i] = x.makeInterface(st, i)
 	case *ssa.ChangeInterface:
@@ -513,6 +522,10 @@ func (x *Exec) load(st *State, addr Value, in ssa.Instruction) Value {
 	case PElem:
 		return x.wfLoaded(st, loadElem(st, p.Ty, p.Reg, p.Idx))
 	case PGlobal:
+		if p.G.Name() == "init$guard" {
+			// the package initialiser is verified for its one real execution (guard still false)
+			return VScalar{False, tyBool}
+		}
 		return x.W.globalValue(st, p.G)
 	case PGlobalElem:
 		g := x.W.globalValue(st, p.G)
@@ -600,6 +613,9 @@ func (x *Exec) store(st *State, addr Value, v Value, in ssa.Instruction) {
 	case PGlobal:
 		x.frameCheckGlobal(st, p.G, in)
 		st.globals[p.G] = v
+		if p.G.Name() == "init$guard" {
+			return
+		}
 	case PGlobalElem:
 		x.frameCheckGlobal(st, p.G, in)
 		g := x.W.globalValue(st, p.G)
@@ -651,6 +667,9 @@ func (x *Exec) frameCheckRegion(st *State, reg *Term, in ssa.Instruction) {
 }
 
 func (x *Exec) frameCheckGlobal(st *State, g *ssa.Global, in ssa.Instruction) {
+	if g.Name() == "init$guard" {
+		return
+	}
 	for _, a := range x.assigns {
 		if a.kind == "global" && a.g == g || a.kind == "all" {
 			return
@@ -1015,6 +1034,11 @@ func (x *Exec) makeInterface(st *State, i *ssa.MakeInterface) Value {
 		return VIfaceObj{Obj: p, Ty: ty}
 	}
 	return VOpaque{ty, "makeinterface"}
+}
+
+// VMap: a map built entry by entry in an initialiser (only used for structural checks)
+type VMap struct {
+	Keys, Vals []Value
 }
 
 type VIfaceObj struct {
